@@ -11,7 +11,7 @@ open BstreamVerif BstreamVerif.Joining BstreamVerif.Drv BstreamVerif.Drv.FileDrv
 
 def sendStr : SEnd → String
   | .stopReached => "stop" | .invalidArg => "invalidarg" | .resolveErr => "invalidarg" | .fileErr e => "fileerr:" ++ e
-  | .notFound => "notfound" | .stuck => "stuck"
+  | .notFound => "notfound" | .stuck => "stuck" | .handlerErr => "handlererr"
 
 open BstreamVerif.Consumer in
 def handle (hdr : List String) (body : List (List String)) : List String :=
@@ -37,7 +37,8 @@ def handle (hdr : List String) (body : List (List String)) : List String :=
               | _ => none)
         | _ => none)
       let cfg : SCfg := { start := st, stop := sp, cursor := if mode == "num" then none else cur?, cursorIsTarget := mode == "through",
-                          finalOnly := fin == "1", customFilter := if cust == "-" then none else cust.toNat?, bundleSize := bs, fsb := fsb }
+                          finalOnly := fin == "1", customFilter := if cust == "-" then none else cust.toNat?, bundleSize := bs, fsb := fsb,
+                          failNum := body.findSome? (fun ws => match ws with | ["failnum", n] => n.toNat? | _ => none) }
       let hubCfg : Forkable.Config := ⟨none, true, kept, false, 51, fsb⟩
       let (evs, e) := runStream cfg hubCfg bundles files pushes
       let notReady := body.any (· == ["impl", "send", "hub-not-ready"])      -- generator artefact: case not run
@@ -73,6 +74,17 @@ def handle (hdr : List String) (body : List (List String)) : List String :=
       let resumedPastStop := match cfg.cursor with | some c => c.block.num ≥ sp | none => false
       let c13d := if send == "stop" && sp != 0 && filterSeesBlocks && !resumedPastStop && finalChain.any (·.num == sp) && !(impl.any (·.ref.num == sp))
                   then ["monitor C13 FAIL stop-block-reached-without-delivering-the-stop-block"] else []
+      -- C11 at stream level: once the handler has failed on a block, Run reports the handler's error (not the stop block,
+      -- not success) and the handler is not called again
+      let c11 : List String := match cfg.failNum with
+        | none => []
+        | some fnum =>
+          match impl.findIdx? (fun e => e.ref.num == fnum) with
+          | none => []
+          | some i =>
+            if i + 1 < impl.length then ["monitor C11 FAIL handler-called-again-after-it-returned-an-error"]
+            else if send != "handlererr" then [s!"monitor C11 FAIL handler-error-not-reported-as-the-cause-of-the-end (reported: {send})"]
+            else []
       -- C07 (default filter, by number or from cursor): one sequence following the undo/new discipline from the
       -- consumer state implied by the start point, events for blocks below the first delivered block aside
       let c07 : List String :=
@@ -115,12 +127,16 @@ def handle (hdr : List String) (body : List (List String)) : List String :=
                 -- the hub's own chain (what its forkable delivered), not the ancestry of the highest block it received
                 if send == "stuck" && tip.id != hubHead.id && seg.any (·.blk.id == tip.id) && lowestFinal != 0 && lowestFinal ≤ tip.num
                     && (sp == 0 || tip.num < sp)
+                    -- with a cursor the file side first has to get past the cursor block (the resolver needs the merged
+                    -- block at the cursor's height; a hub may legitimately refuse a cursor that forked below its LIB):
+                    -- waiting for a merged file that the static store of the test does not hold is not a stall
+                    && (match cfg.cursor with | some c => tip.num ≥ c.block.num | none => true)
                 then ["monitor C07 FAIL stream-stalls-although-the-hub-retains-its-tip-and-holds-later-canonical-blocks"] else []
               | _, _ => []
             if stalled != [] then stalled else
             if held.length == (held.foldl (fun (l : List Id) i => if l.contains i then l else l ++ [i]) []).length then []
             else ["monitor C07 FAIL a-block-is-held-twice-after-the-handoff"]
-      model ++ (c13c ++ c13a ++ c13b ++ c13d).take 1 ++ c07.take 1
+      model ++ (c13c ++ c13a ++ c13b ++ c13d).take 1 ++ c07.take 1 ++ c11
     | _, _, _, _, _ => ["model bad-case"]
   | _ => ["model bad-case"]
 
